@@ -109,6 +109,8 @@ Definition after_node (p : pend) (n : node) : pend :=
   match n_kind n with
   | NInst _ _ _ _ _ _ => pend0
   | NFuncRet => pend0
+  | NJump _ _ _ _ _ _ => pend0
+  | NInvoke _ _ _ _ _ => pend0
   | _ => mkP (q_opts p) (q_exsig p) (q_exid p) (n_comment n)
   end.
 
@@ -267,9 +269,11 @@ Proof.
   - apply cursor_ok_section; exact H.
   - destruct (l =? nlabels b); [cbn [fst]; apply cursor_ok_add_node|]; exact H.
   - (* add_func *) apply cursor_ok_func. exact H.
-  - (* end_func *) destruct (cur_func b) as [fl|]; cbn [fst]; [|exact H]. unfold cursor_ok.
-    change (match find_index (is_func_end fl) (active b) with Some c => (c < length (active b))%nat | None => True end).
-    destruct (find_index (is_func_end fl) (active b)) eqn:E; [apply find_index_lt in E; exact E|trivial].
+  - (* end_func *) destruct (cur_func b) as [fl|]; cbn [fst]; [|exact H].
+    match goal with |- cursor_ok (with_list ?b2 _ _ _) => set (B2 := b2) end.
+    unfold cursor_ok. change (match find_index (is_func_end fl) (active B2) with Some c => (c < length (active B2))%nat | None => True end).
+    destruct (find_index (is_func_end fl) (active B2)) eqn:E; [apply find_index_lt in E; exact E|trivial].
+  - (* _new_const *) destruct (scope =? 0); [destruct (lpool b) as [[? ?]|]|destruct (gpool b) as [[? ?]|]]; exact H.
   - (* set cursor *) destruct i as [i|]; [destruct (in_range i (active b)) eqn:E; [|exact H]|]; unfold cursor_ok; simpl_b; [apply in_range_lt in E; exact E|trivial].
   - (* remove *) destruct (in_range i (active b)) eqn:E; [|exact H]. cbn [fst]. apply in_range_lt in E. apply cursor_ok_remove_range; [lia|exact E|exact H].
   - destruct (in_range i (active b)) eqn:E1; [|exact H]. destruct (in_range j (active b)) eqn:E2; [|exact H]. destruct (Nat.leb i j) eqn:E3; [|exact H].
@@ -339,6 +343,7 @@ Proof.
     destruct (find_index (is_section_id s) (active b)); exfalso; apply H; reflexivity.
   - destruct (l =? nlabels b); [exfalso; apply H|]; reflexivity.
   - exfalso. eapply HF. reflexivity.
+  - exfalso. destruct (scope =? 0); [destruct (lpool b) as [[? ?]|]|destruct (gpool b) as [[? ?]|]]; apply H; reflexivity.
   - destruct i as [i|]; [destruct (in_range i (active b))|]; try reflexivity; exfalso; apply H; reflexivity.
   - destruct (in_range i (active b)); [exfalso; apply H|]; reflexivity.
   - destruct (in_range i (active b) && in_range j (active b) && Nat.leb i j); [exfalso; apply H|]; reflexivity.
@@ -395,11 +400,61 @@ Qed.
 
 (* end_func(): without a function kInvalidState; otherwise the cursor goes to the function's end sentinel; the one-shot state is cleared
    in both cases and the list is untouched *)
-Theorem end_func_spec : forall b,
+Theorem end_func_spec : forall b, lpool b = None ->
   let b' := fst (step b CEndFunc) in
   active b' = active b /\ pool b' = pool b /\ p_opts b' = 0 /\ p_comment b' = None /\
   match cur_func b with
   | None => snd (step b CEndFunc) = kInvalidState /\ cursor b' = cursor b
   | Some fl => snd (step b CEndFunc) = kOk /\ cursor b' = find_index (is_func_end fl) (active b) /\ cur_func b' = None
   end.
-Proof. intros b. cbn [step]. destruct (cur_func b); cbn; repeat split. Qed.
+Proof. intros b HL. cbn [step]. cbn [lpool with_func with_pend]. rewrite HL. destruct (cur_func b); cbn; repeat split. Qed.
+
+(* emit_annotated_jump / add_invoke_node capture the pending one-shot state like _emit and stand for the plain instruction with one operand *)
+Theorem jump_invoke_faithful : forall b id op ann,
+  let j := fst (step b (CJump id op ann)) in let i := fst (step b (CInvoke id op)) in
+  active j = insert_at (cursor_pos (cursor b)) (mkNode (NJump id (p_opts b) (p_exsig b) (p_exid b) op ann) (dup_comment (p_comment b))) (active b) /\
+  active i = insert_at (cursor_pos (cursor b)) (mkNode (NInvoke id (p_opts b) (p_exsig b) (p_exid b) op) (dup_comment (p_comment b))) (active b) /\
+  p_opts j = 0 /\ p_comment j = None /\ p_opts i = 0 /\ p_comment i = None /\
+  node_ecalls (mkNode (NJump id (p_opts b) (p_exsig b) (p_exid b) op ann) (dup_comment (p_comment b)))
+    = [EInst id (clear_reserved (p_opts b)) (p_exsig b) (p_exid b) (canon_ops op op_none op_none op_none op_none op_none) (dup_comment (p_comment b))] /\
+  node_ecalls (mkNode (NInvoke id (p_opts b) (p_exsig b) (p_exid b) op) (dup_comment (p_comment b)))
+    = [EInst id (clear_reserved (p_opts b)) (p_exsig b) (p_exid b) (canon_ops op op_none op_none op_none op_none op_none) (dup_comment (p_comment b))].
+Proof.
+  intros. cbn. repeat split; destruct (p_comment b) as [[|]|]; reflexivity.
+Qed.
+
+(* _new_const: the pool node of a scope is created on first use and registers one label; nothing is linked into the list *)
+Theorem new_const_spec : forall b scope d,
+  let b' := fst (step b (CNewConst scope d)) in
+  active b' = active b /\ cursor b' = cursor b /\ snd (step b (CNewConst scope d)) = kOk /\
+  (scope = 0 -> lpool b = None -> lpool b' = Some (nlabels b, d) /\ nlabels b' = nlabels b + 1 /\ gpool b' = gpool b) /\
+  (scope = 0 -> forall l old, lpool b = Some (l, old) -> lpool b' = Some (l, pool_add d old) /\ nlabels b' = nlabels b).
+Proof.
+  intros b scope d. cbn [step]. destruct (scope =? 0) eqn:E.
+  - destruct (lpool b) as [[l old]|] eqn:EL; cbn; repeat split; try discriminate; intros; try congruence;
+      try (match goal with H : Some _ = Some _ |- _ => injection H as <- <-; reflexivity end).
+  - apply Z.eqb_neq in E. destruct (gpool b) as [[l old]|]; cbn; repeat split; intros; contradiction.
+Qed.
+
+(* end_func with a pending local constant pool: the pool node is linked in right before the function's end sentinel (after the exit label
+   and whatever follows it), the cursor ends on the end sentinel, the pool slot is cleared *)
+Lemma find_index_insert_before : forall {A} (p : A -> bool) l e x, find_index p l = Some e -> p x = false ->
+  find_index p (insert_at e x l) = Some (S e).
+Proof.
+  intros A p. induction l as [|a l IH]; intros e x H Hx; [discriminate|]. cbn [find_index] in H. destruct (p a) eqn:Ea.
+  - injection H as <-. unfold insert_at. cbn. rewrite Hx, Ea. reflexivity.
+  - destruct (find_index p l) as [j|] eqn:EJ; [|discriminate]. injection H as <-.
+    unfold insert_at in *. cbn. rewrite Ea. specialize (IH j x eq_refl Hx). unfold insert_at in IH. rewrite IH. reflexivity.
+Qed.
+
+Theorem end_func_flushes_local_pool : forall b fl l d e,
+  cur_func b = Some fl -> lpool b = Some (l, d) -> find_index (is_func_end fl) (active b) = Some (S e) ->
+  let b' := fst (step b CEndFunc) in
+  active b' = insert_at (S e) (mkNode (NConstPool l 8 d) None) (active b) /\ cursor b' = Some (S (S e)) /\
+  lpool b' = None /\ gpool b' = gpool b /\ cur_func b' = None /\ snd (step b CEndFunc) = kOk.
+Proof.
+  intros b fl l d e HF HL HE b'. subst b'. cbn [step]. rewrite HF. cbn [lpool with_func with_pend active]. rewrite HL, HE.
+  cbn [fst snd pred_opt]. simpl_b. cbn [cursor_pos lpool gpool cur_func with_pools with_func with_pend].
+  rewrite (find_index_insert_before (is_func_end fl) (active b) (S e) (mkNode (NConstPool l 8 d) None) HE eq_refl).
+  repeat split.
+Qed.
